@@ -1,14 +1,14 @@
 from lib.driver import Ob
 
 LEVEL = 'model_checking'
-EXPLANATION = ('The real BaseNumberParser.__get_int_value (English maps and resolve_composite_number) runs natively (symx) on token lists whose number words are placeholders '
+EXPLANATION = ('[English] The real BaseNumberParser.__get_int_value (English maps and resolve_composite_number) runs natively (symx) on token lists whose number words are placeholders '
                'with symbolic values, one run per token shape; the result must equal the sum of group values x 1000^k for every value assignment at once. Shapes come from an '
-               'independent spelling grammar (with/without "and", hyphenated tens) and each is validated against the real tokenising regex on a concrete instance.')
+               'independent spelling grammar (with/without "and", hyphenated tens) and each is validated against the real tokenising regex on a concrete instance. [fr, de, nl, it, pt, es, zh, ja] The same kernel (CJKNumberParser.get_int_value for zh/ja) with the culture\'s real '
+               'configuration runs on every token shape that independent spellers (harness/spell.py) produce for the sample numbers; the oracle is an independent positional evaluator; the same numbers go through recognize_number.')
 ASSUMPTIONS = ['token shapes: per three-digit group u | teen | tens | tens ones | u hundred [and] (u | teen | tens | tens ones); groups units..trillion',
                'quick: every one-group shape and the two-group shapes of (thousand|million|trillion, units) and (million, thousand) with 5 patterns for the higher group; thorough: all two-group and selected three-group shapes', 'ordinals: the last word in its ordinal form (first..ninth, tenth..nineteenth, twentieth.., hundredth, thousandth, ...)',
                'Decimal(tmp_val) at the end is the exact proxy of harness/symdec.py']
-OUTSIDE = ['the extraction regexes (which spellings are extracted as one entity) and BaseMergedNumberExtractor', 'ordinals of the cultures other than English', 'Japanese numerals from 10^4 (万) upwards (recorded findings F34, F35)', 'spellings of the recorded findings F26-F29', 'zero, "a hundred", dozens, fractions, decimals ("point five")',
-           'CJKNumberParser']
+OUTSIDE = ['the extraction regexes (which spellings are extracted as one entity) and BaseMergedNumberExtractor', 'ordinals of the cultures other than English', 'Japanese numerals from 10^4 (万) upwards (recorded findings F34, F35)', 'spellings of the recorded findings F26-F29', 'zero, "a hundred", dozens, fractions, decimals ("point five")', 'CJK fractions, decimals, dozens and pairs']
 N = 'recognizers_number.number.parsers:'
 
 
